@@ -339,6 +339,24 @@ func build(tier string) *enum {
 			}
 		}
 	}
+	// larger cell counts (any batching of cells must still cover every cell): N in {5, 8, 9, 13}, reduced grid
+	for _, t := range tables.All() {
+		groups, het := groupsFor(t)
+		for gi, g := range groups {
+			if het[gi] {
+				continue
+			}
+			for _, N := range []int{5, 8, 9, 13} {
+				for _, P := range []int{1, N} {
+					for _, B := range []int{1, 4, N} {
+						for _, cb := range []bool{false, true} {
+							e.cases = append(e.cases, kase{tbl: t, group: g, N: N, P: P, B: B, T: 3, slack: 1, cBacked: cb, fillInit: cb})
+						}
+					}
+				}
+			}
+		}
+	}
 	return e
 }
 
@@ -360,7 +378,7 @@ func (e *enum) CrashSig(i int64, tail string) (string, string) {
 func Spec() *vf.Check {
 	return &vf.Check{
 		ID: "C04", Level: "exploration", BlockSize: 16,
-		Rule: "all 41 catalogued models x parameter-vector groups x cells N in 1..4 x parameter sets P and input blocks B in {1, N, the value coprime with N below N} x T in {1,3,(6)} x outputs exact or one larger in every dimension x Go- or C-backed arrays (with canaries) x states from InitialiseStates(N) or caller-filled (warmed-up, distinct rows); per-cell table lengths differ for Storage and RatingCurvePartition; " +
+		Rule: "all 41 catalogued models x parameter-vector groups x cells N in 1..4 x parameter sets P and input blocks B in {1, N, the value coprime with N below N} (plus N in {5,8,9,13} with P in {1,N}, B in {1,4,N}) x T in {1,3,(6)} x outputs exact or one larger in every dimension x Go- or C-backed arrays (with canaries) x states from InitialiseStates(N) or caller-filled (warmed-up, distinct rows); per-cell table lengths differ for Storage and RatingCurvePartition; " +
 			"each cell of the vectorised run is compared bit-for-bit with a fresh single-cell run of its parameter column (i mod P), input block (i mod B) and state row; inputs/parameters unchanged; slack and canaries untouched. distinct_nontrivial = configurations with a non-zero output.",
 		Assumptions: []string{"a write that stores the value already present in inputs/parameters is not observable here (no access log)", "GR4J/Lag parameter sets mixing unit-hydrograph / lag lengths are enumerated separately (rectangular state array)"},
 		Build:       func(tier string) vf.Enumeration { return build(tier) },
